@@ -176,6 +176,39 @@ def _returns_zero_iff(P, F, call):
 
 def rule_X3(P, rep):
     locks.check_wrapper_summaries(P, rep, "X3")
+    # futex hand-over wrappers (Linux futex build): the futex word must be sampled while the caller's
+    # lock is still held.  A broadcast can only run under that lock, so a sample taken after the
+    # release may already contain the wake-up and FUTEX_WAIT would sleep on it for ever.
+    from abtverif import seq
+    for fn in ("ABTD_futex_wait_and_unlock", "ABTD_futex_timedwait_and_unlock"):
+        Fs = P.fns(fn)
+        if not Fs:
+            continue
+        F = Fs[0]
+        if not F.calls("syscall"):
+            continue                    # pthread-based fallback: no sampled word
+        lockp = "var:" + F.params[1]["n"]
+        sel = seq.Sel(calls={"syscall"}, reads={"ABTD_futex_multiple::val"}, canon=True)
+        n = 0
+        for toks, kind, rv, rtxt in seq.sequences(F, sel):
+            if kind != "ret":
+                continue
+            n += 1
+            rd = [i for i, t in enumerate(toks) if t[0] == "rd"]
+            rel = [i for i, t in enumerate(toks) if t[0] == "rel" and t[1] == lockp]
+            sc = [i for i, t in enumerate(toks) if t[0] == "call" and t[1] == "syscall"]
+            why = []
+            if not rd or not rel or not sc:
+                why.append("expected a read of the futex word, a release of the lock and a futex syscall")
+            else:
+                if not rd[0] < rel[0]:
+                    why.append("the futex word is first read after the lock was released (a broadcast in between is missed: "
+                               "the waiter sleeps on the already incremented value)")
+                if not rel[0] < sc[0]:
+                    why.append("sleeps before releasing the lock")
+            rep.ob("X3", "%s samples the futex word under the caller's lock, then releases it, then sleeps [%s]" %
+                   (fn, seq.show(toks)[:160]), not why, "; ".join(why), loc="%s:%d" % (F.file, F.line), site="futex-sample/" + fn)
+        rep.need(n >= 1, "%s: no returning path" % fn)
 
 
 # functions that intentionally return with a different lockset than they were entered with: one
@@ -255,7 +288,8 @@ def run_shared(P, rep, which=("X1", "X2", "X3")):
 SHARED_DOC = {
     "X1": "atomic wrappers of abtd_atomic.h pass a builtin memory order at least as strong as their name",
     "X2": "spinlock primitives: acquire/try_acquire succeed only on a clear test_and_set; release is a release-clear",
-    "X3": "every lock-transfer / conditional-acquire summary used by the lockset analysis holds on the wrapper body",
+    "X3": "every lock-transfer / conditional-acquire summary used by the lockset analysis holds on the wrapper body; "
+          "the futex hand-over wrappers sample the futex word before they release the caller's lock",
 }
 
 
